@@ -118,6 +118,10 @@ func (q *Quadtree) add(n *node, p orb.Pointer, point orb.Point, left, right, bot
 //		return pointer.(*MyType).ID == lookingFor.ID
 //	}
 func (q *Quadtree) Remove(p orb.Pointer, eq FilterFunc) bool {
+	if q.root == nil {
+		return false
+	}
+
 	if eq == nil {
 		point := p.Point()
 		eq = func(pointer orb.Pointer) bool {
